@@ -30,7 +30,8 @@ Inputs == IF Kinds \cap {"tree", "treem"} # {} THEN {s \in Strs(MaxLen) : BalFro
 (* "W" for a four-byte one                                                *)
 (* "G" = e + combining acute (3 bytes), "U" = a flag of two regional indicators (8 bytes): one grapheme cluster each *)
 Width(kind, t) == IF kind \in {"str", "graph", "static", "staticc"}
-                  THEN (CASE t \in {"E", "Z"} -> 2 [] t = "W" -> 4 [] t = "X" -> 2 [] t \in {"L", "P", "G"} -> 3 [] t = "U" -> (IF kind = "graph" THEN 8 ELSE 3) [] OTHER -> 1) ELSE 1
+                  THEN (CASE t \in {"E", "Z"} -> 2 [] t = "W" -> 4 [] t = "X" -> 2 [] t \in {"L", "P", "G"} -> 3 [] t = "U" -> (IF kind = "graph" THEN 8 ELSE 3)
+                        [] t = "D" -> (IF kind = "graph" THEN 2 ELSE 3) [] OTHER -> 1) ELSE 1
 RECURSIVE OffsFrom(_, _, _)
 OffsFrom(kind, s, o) == IF s = <<>> THEN <<o>> ELSE <<o>> \o OffsFrom(kind, Tail(s), o + Width(kind, Head(s)))
 Offs(kind, s) == OffsFrom(kind, s, 0)
@@ -202,6 +203,9 @@ RShapes ==
   \* configure() overrides at_least / at_most individually, also with 0, whatever the static bounds were
   \cup {<<"withctx", VI(n), <<"collect", <<cf, <<"rep", J("a"), b[1], b[2]>>>>, "vec">>>> :
            n \in 0..2, cf \in {"cfgrep", "cfgrepmin", "cfgrepmax"}, b \in {<<1, Inf>>, <<2, 2>>, <<0, 1>>, <<1, 2>>}}
+  \* a configured repetition used as a plain parser (IterConfigure::go), followed by a rest capture
+  \cup {<<"withctx", VI(n), <<"run", <<cf, <<"rep", J("a"), b[1], b[2]>>>>>>>> :
+           n \in 0..2, cf \in {"cfgrep", "cfgrepmin", "cfgrepmax"}, b \in {<<0, Inf>>, <<1, 2>>, <<2, 2>>}}
 RepTemplates == RShapes \cup {<<"then", sh, RestCap>> : sh \in RShapes}
 (* Pratt (C09): operator tables over symbols + - * ! ~ ^ with powers 0..3, same symbol allowed *)
 (* as prefix and infix; atoms a / b                                                              *)
@@ -215,6 +219,14 @@ PTables ==
     << <<"postfix", 2, "!">>, <<"prefix", 3, "~">>, <<"infixr", 0, "+">>, <<"infixl", 0, "*">> >>,
     << <<"infixl", 2, "+">>, <<"infixl", 1, "+">> >>,                    \* the same symbol twice: declaration order decides
     << <<"infixl", 0, "+">>, <<"infixl", 1, "*">>, <<"infixr", 2, "^">>, <<"prefix", 3, "-">>, <<"postfix", 3, "!">>, <<"infixl", 1, "-">> >> }
+(* C09: loosely binding prefix operators under tighter infix operators, equal powers with opposite associativity: *)
+(* shapes that need five or six tokens (run over a small alphabet)                                                  *)
+PTablesP ==
+  { << <<"prefix", 0, "-">>, <<"infixl", 2, "*">>, <<"infixl", 1, "+">> >>,
+    << <<"infixl", 1, "+">>, <<"infixr", 1, "*">> >>,
+    << <<"infixr", 1, "+">>, <<"infixl", 1, "*">>, <<"postfix", 0, "-">> >>,
+    << <<"prefix", 1, "-">>, <<"infixr", 2, "*">>, <<"infixl", 0, "+">>, <<"postfix", 1, "+">> >> }
+PrattPTemplates == {<<"pratt", <<"oneof", <<"a">>>>, t, k>> : t \in PTablesP, k \in {"vec", "tuple"}}
 PrattTemplates ==
   {<<"pratt", PAtom, t, k>> : t \in PTables, k \in {"vec", "tuple"}}
   \cup {<<"then", <<"pratt", PAtom, t, "vec">>, RestCap>> : t \in PTables}
@@ -335,8 +347,8 @@ Templates(fam) == CASE fam = "memoT" -> MemoTemplates [] fam = "gapT" -> GapTemp
                     \* byte inputs have no text::newline; the radix family looks at int / digits only
                     [] fam = "txtb" -> {g \in TxtTemplates \cup TxtCTemplates : ~HasOp(g, {"newline"}) /\ g \notin {TUKw(<<"E", "a">>), <<"then", TUKw(<<"E", "a">>), RestCap>>}}
                     [] fam = "txtr" -> {<<"then", tp, RestCap>> : tp \in {TDigits(r) : r \in {"2", "8", "10", "16", "36"}} \cup {TInt(r) : r \in {"2", "8", "10", "16", "36"}}} [] fam = "drpT" -> DrpTemplates [] fam = "rcvT" -> RcvTemplates [] fam = "lblT" -> LblTemplates
-                    [] fam = "pratt" -> PrattTemplates [] fam = "rec" -> RecTemplates [] fam = "lrec" -> LRecTemplates [] fam = "repT" -> RepTemplates
-TemplateFams == {"rec", "lrec", "repT", "pratt", "memoT", "rcvT", "lblT", "drpT", "txt", "txtc", "txtb", "txtr", "gapT", "gapTi", "rcvN", "stat", "rcvE"}
+                    [] fam = "pratt" -> PrattTemplates [] fam = "prattP" -> PrattPTemplates [] fam = "rec" -> RecTemplates [] fam = "lrec" -> LRecTemplates [] fam = "repT" -> RepTemplates
+TemplateFams == {"rec", "lrec", "repT", "pratt", "prattP", "memoT", "rcvT", "lblT", "drpT", "txt", "txtc", "txtb", "txtr", "gapT", "gapTi", "rcvN", "stat", "rcvE"}
 
 Grammars == IF Fam \in TemplateFams THEN {g \in Templates(Fam) : Fam = "lrec" \/ WF(g)}
             ELSE {g \in UNION {GSz(Fam, n) : n \in 1..MaxSize} : WF(g)}
@@ -462,7 +474,7 @@ Flat(v) ==
     [] v[1] = "L" -> FlatSeq(v[2])
     [] OTHER -> <<>>
 PrattFlatten ==
-  (st.done /\ result.ok /\ TopMode = "E" /\ Fam = "pratt") => Flat(result.out) = Toks
+  (st.done /\ result.ok /\ TopMode = "E" /\ Fam \in {"pratt", "prattP"}) => Flat(result.out) = Toks
 
 (* C14: whenever a text parser returns, it matched exactly the prefix its documented language   *)
 (* prescribes (and failed where the language has no match), and its output is that slice        *)
